@@ -310,6 +310,42 @@ def consumers_ok(rows):
     return None
 
 
+VIEW_ERR = {"duplicate stmt_id detected": "err:duplicate", "block_end without block_start": "err:end_without_start",
+            "block nesting mismatch": "err:mismatch", "unclosed block detected": "err:unclosed"}
+
+
+def real_consumers(rows, blocks):
+    """outcome of the real GIRBlockViewer constructor and of DataModel.read_block(b) for b in blocks"""
+    from lian.util.gir_block import GIRBlockViewer
+    from lian.util.data_model import DataModel
+    dm = DataModel([{"operation": r["op"], "stmt_id": r["id"], "parent_stmt_id": r["p"]} for r in rows])
+    try:
+        with quiet():
+            GIRBlockViewer(dm)
+        v = "ok"
+    except RuntimeError as e:
+        v = VIEW_ERR.get(str(e), "err:other:" + str(e))
+    except Exception as e:
+        v = "err:other:" + type(e).__name__
+    rb = []
+    for b in blocks:
+        dm2 = DataModel([{"operation": r["op"], "stmt_id": r["id"], "parent_stmt_id": r["p"]} for r in rows])
+        try:
+            with quiet():
+                dm2.read_block(b)
+            rb.append(True)
+        except SystemExit:
+            rb.append(False)
+    return {"viewer": v, "read_block": rb}
+
+
+def assert_lian_from_repo():
+    import lian
+    src = os.path.realpath(os.path.join(common.REPO, "src")) + os.sep
+    if not os.path.realpath(lian.__file__).startswith(src):
+        raise RuntimeError(f"lian imported from {lian.__file__}, expected under {src}")
+
+
 # --------------------------------------------------------------------------------------------------
 # tie (b): the real lang phase, in-process, in worker processes
 # --------------------------------------------------------------------------------------------------
@@ -395,6 +431,7 @@ def worker_init(repo, scratch):
     _SCRATCH[0] = scratch
     sys.setrecursionlimit(3000)
     install_wrappers()
+    assert_lian_from_repo()
 
 
 def read_bundles(ws):
@@ -911,6 +948,22 @@ def tie_b(ctx, P):
         rejected["rejected" if cl else "still_wf"] += 1
         for c in cl:
             rejected[c] += 1
+    # ---- models of the consumers vs the real consumers (well-formed and corrupted real tables)
+    ctabs = [u for u, _ in corrupted] + [u for u in sample[:len(corrupted)] if len(u) < 1500]
+    creqs, cblocks = [], []
+    for u in ctabs:
+        bl = sorted({w["id"] for w in u if w["op"] == "block_start" and w["id"] != 0})[:8]
+        cblocks.append(bl)
+        creqs.append({"m": "wfcheck", "op": "consumers", "rows": u, "blocks": bl})
+    cmodel = chunked(creqs, 300)
+    corr_c = []
+    cstats = collections.Counter()
+    for u, bl, m in zip(ctabs, cblocks, cmodel):
+        rc = real_consumers(u, bl)
+        ctx.cov["evaluations"] += 1
+        cstats[rc["viewer"]] += 1
+        if rc != m:
+            corr_c.append({"what": "consumer models differ from GIRBlockViewer / read_block", "rows": u, "blocks": bl, "real": rc, "model": m})
     # ---- model langRun on the captured trees must reproduce the bundle
     reqs = []
     for r in run_reqs:
@@ -961,6 +1014,8 @@ def tie_b(ctx, P):
                         "model_differences": len(corr), "checker_vs_oracle_disagreements": len(disagreements),
                         "frontend_raised_units_skipped": cov["frontend_raised_units"],
                         "corrupted_tables": dict(rejected), "consumer_failures": consumer_fail,
+                        "consumer_model_compared": len(ctabs), "consumer_model_differences": len(corr_c),
+                        "consumer_outcomes": dict(cstats),
                         "pool_wall_s": round(time.time() - t0, 1), "workers": nproc}
     ctx.cov["programs"] = ctx.cov.get("programs", 0) + len(results)
     ctx.cov["disagreements_checked"] = ctx.cov.get("disagreements_checked", 0) + len(wf_reqs) + len(corrupted) + len(run_reqs)
@@ -969,7 +1024,7 @@ def tie_b(ctx, P):
         ctx.cov["samples"].append({"tie": "b", "cid": ok_res["cid"], "units": [[uid, len(rows)] for uid, rows in ok_res["bundle"]],
                                    "first_rows": ok_res["bundle"][0][1][:4]})
     shutil.rmtree(scratch, ignore_errors=True)
-    return failures, corr, disagreements, by_cid
+    return failures, corr + corr_c, disagreements, by_cid
 
 
 def run(ctx):
@@ -981,6 +1036,7 @@ def run(ctx):
 
 def _run(ctx):
     common.use_repo()
+    assert_lian_from_repo()
     proofs_ok = ctx.proofs()
     P, notes = extract_params()
     _P_CACHE[0] = P
@@ -1042,7 +1098,8 @@ def _run(ctx):
             broken.append({"correspondence": "LianVerif.Gir.flatten / MainFunc.addMainFunc / LangRun.adjustNodeId vs real passes",
                            "first": corr_a[0], "count": len(corr_a)})
         if corr_b:
-            broken.append({"correspondence": "LianVerif.LangRun.langRun vs frontend/gir.bundle*", "first": corr_b[0], "count": len(corr_b)})
+            broken.append({"correspondence": "LianVerif.LangRun.langRun vs frontend/gir.bundle* / LianVerif.Consumers vs GIRBlockViewer, read_block",
+                           "first": corr_b[0], "count": len(corr_b)})
         if dis_a or dis_b:
             broken.append({"correspondence": "Lean wfCheck vs Python oracle", "first": (dis_a + dis_b)[0], "count": len(dis_a) + len(dis_b)})
         if broken:
